@@ -255,7 +255,13 @@ func sectionRequests(tree *mimegen.Node, stored []byte, idAt, shift int) []secRe
 			add(p, "", sl(n.BStart, n.End), "SpBody")
 		}
 	}
-	rec(tree, nil)
+	if tree.IsMsg() && tree.Embedded != nil {
+		// the message itself is of type message/rfc822: its part numbers are those of the message it embeds
+		// (HEADER / TEXT without part number stay those of the message itself)
+		rec(tree.Embedded, nil)
+	} else {
+		rec(tree, nil)
+	}
 	return out
 }
 
@@ -487,7 +493,7 @@ func run(ctx *common.Ctx) error {
 		ascii := mi%2 == 0
 		big := mi >= nMsgs
 		prefix := rng.Chance(0.35)
-		g := &mimegen.Gen{Rng: rng, MaxBody: 80, ASCII: ascii, NoTopMsg: true, NoMsgInMsg: true, MsgChainLeaf: true, Bare: true, NoClose: !prefix, Prefix: prefix, EmptyFields: true}
+		g := &mimegen.Gen{Rng: rng, MaxBody: 80, ASCII: ascii, NoTopMsg: mi%4 != 3, TopMsg: mi%8 == 7, NoMsgInMsg: true, MsgChainLeaf: true, Bare: true, NoClose: !prefix, Prefix: prefix, EmptyFields: true}
 		mix := rng.Chance(0.4)
 		var tree *mimegen.Node
 		if big {
@@ -495,6 +501,9 @@ func run(ctx *common.Ctx) error {
 			tree.Body = bytes.Repeat([]byte("0123456789abcde\r\n"), bigSizes[mi-nMsgs]/17+1)[:bigSizes[mi-nMsgs]]
 		} else {
 			depth := rng.Range(0, 3)
+			if g.TopMsg && depth == 0 {
+				depth = 1
+			}
 			tree = g.Tree(depth, true, mix)
 			if rng.Chance(0.1) {
 				tree.Prelude = "this line has no colon"
@@ -647,6 +656,8 @@ func run(ctx *common.Ctx) error {
 			np := []int{len(tree.Children) + 2}
 			if tree.IsMulti() {
 				np = []int{len(tree.Children) + 1}
+			} else if tree.IsMsg() && tree.Embedded != nil && tree.Embedded.IsMulti() {
+				np = []int{len(tree.Embedded.Children) + 1}
 			}
 			attr := "BODY.PEEK[" + pathStr(np) + "]"
 			f1, err := fetch(c, seq, attr)
